@@ -748,3 +748,121 @@ func blockReaches(a, b *ssa.BasicBlock, strict bool) bool {
 	}
 	return false
 }
+
+// C17-R9 PUBLISHED-FROZEN: a map built locally and then published — stored into
+// a field of a component object or handed to Topic.Publish — is shared from that
+// point on. Mutating it afterwards through the local name (delete, m[k] = v)
+// without the lock that guarded the publication is an unsynchronised write to
+// shared memory, invisible to the field-based lockset (R8).
+func rulePublishedFrozen(c *Check, rule string) {
+	nPub, nMut, bad := 0, 0, 0
+	var pubs []string
+	for _, fn := range c.P.RepoFuncs() {
+		if !sfInScope(fn) || fn.Blocks == nil || fn.Parent() != nil || !sfComponentPkg(shortPkg(fnPkgPath(fn))) {
+			continue
+		}
+		if unknownHelper(fn, 0) && hasRepoCaller(c.P, fn) {
+			continue // walked as part of its callers
+		}
+		// pre-filter: the function (or a new helper it calls) makes a map
+		makes := false
+		var scan func(f *ssa.Function, d int)
+		scan = func(f *ssa.Function, d int) {
+			for _, b := range f.Blocks {
+				for _, in := range b.Instrs {
+					if _, ok := in.(*ssa.MakeMap); ok {
+						makes = true
+					}
+					if ci, ok := in.(ssa.CallInstruction); ok && d < 3 {
+						if cal := ci.Common().StaticCallee(); cal != nil && cal.Blocks != nil && unknownHelper(cal, d+1) {
+							scan(cal, d+1)
+						}
+					}
+				}
+			}
+		}
+		scan(fn, 0)
+		if !makes {
+			continue
+		}
+		name := QualName(fn)
+		w := Walk(c.P, fn, WalkConfig{Memo: true, MaxPaths: 30000,
+			KeepEvent: func(e *Event) bool {
+				switch e.Kind {
+				case "store":
+					return strings.HasPrefix(e.Val, "makemap")
+				case "mapupdate":
+					return strings.HasPrefix(e.Addr, "makemap")
+				case "call":
+					return strings.Contains(e.Callee, ").Publish") || e.Callee == "builtin:delete" || e.Callee == "builtin:clear"
+				case "lock", "rlock", "unlock", "runlock", "ret":
+					return true
+				}
+				return false
+			},
+			KeepAtom: func(a Atom) bool { return false }})
+		if w.Err != nil {
+			c.Undecided(rule, name, "path walk failed: "+w.Err.Error(), c.P.Pos(fn.Pos()))
+			continue
+		}
+		c.UseFunc(name)
+		seenPub := map[string]bool{}
+		seenBad := map[string]bool{}
+		for i := range w.Paths {
+			p := &w.Paths[i]
+			published := map[string][]string{} // map value -> locks held when it was published
+			for j := range p.Events {
+				e := &p.Events[j]
+				switch {
+				case e.Kind == "store" && strings.HasPrefix(e.Val, "makemap") && !strings.HasPrefix(e.Addr, "&alloc:") && !strings.HasPrefix(e.Addr, "free:") && strings.Contains(e.Addr, "."):
+					published[e.Val] = append([]string{}, e.Held...)
+					if !seenPub[e.Addr] {
+						seenPub[e.Addr] = true
+						nPub++
+						pubs = append(pubs, strings.TrimPrefix(e.Addr, "&"))
+					}
+				case e.Kind == "call" && strings.Contains(e.Callee, ").Publish"):
+					for _, a := range e.Args {
+						if strings.HasPrefix(a, "makemap") {
+							published[a] = append([]string{}, e.Held...)
+							if !seenPub["publish:"+name] {
+								seenPub["publish:"+name] = true
+								nPub++
+								pubs = append(pubs, "Publish in "+name)
+							}
+						}
+					}
+				case e.Kind == "mapupdate" || e.Kind == "call" && (e.Callee == "builtin:delete" || e.Callee == "builtin:clear"):
+					m := e.Addr
+					if e.Kind == "call" && len(e.Args) > 0 {
+						m = e.Args[0]
+					}
+					locks, isPub := published[m]
+					if !isPub {
+						continue
+					}
+					nMut++
+					common := false
+					for _, l := range locks {
+						for _, h := range e.Held {
+							if l == h {
+								common = true
+							}
+						}
+					}
+					key := c.P.InstrPos(e.Instr)
+					if !common && !seenBad[key] {
+						seenBad[key] = true
+						bad++
+						c.Bad(rule, name+"/mutation-after-publication", fmt.Sprintf("the map %s is modified after it was published (stored into a shared object or sent to subscribers) without the lock that guarded the publication (held then: %v, held now: %v): readers in other goroutines race with this write", m, locks, e.Held), key, describe(c, p))
+					}
+				}
+			}
+		}
+	}
+	sort.Strings(pubs)
+	if bad == 0 {
+		c.Ok(rule, "published-frozen", fmt.Sprintf("%d publications of locally built maps (%s): none is modified afterwards outside the publishing lock (%d modifications under it)", nPub, strings.Join(pubs, ", "), nMut), "")
+	}
+	c.Floor(rule, nPub, 2, "publications of locally built maps")
+}
